@@ -217,23 +217,24 @@ impl KademliaRoutingTable {
         let mut candidates: Vec<(NodeInfo, [u8; 32])> = Vec::with_capacity(count * 2);
 
         // Collect from target bucket first, then expand outwards
-        for offset in 0..256 {
-            // Check bucket above target (or at target when offset == 0)
-            let bucket_above = target_bucket.saturating_add(offset).min(255);
-            for node in self.buckets[bucket_above].get_nodes() {
-                let distance = node.id.0.distance(key);
-                candidates.push((node.clone(), distance));
+        for offset in 0..KADEMLIA_BUCKET_COUNT {
+            // Check bucket above target (or at target when offset == 0); there is
+            // nothing beyond the last bucket, so each bucket is visited at most once
+            let bucket_above = target_bucket + offset;
+            if bucket_above < KADEMLIA_BUCKET_COUNT {
+                for node in self.buckets[bucket_above].get_nodes() {
+                    let distance = node.id.0.distance(key);
+                    candidates.push((node.clone(), distance));
+                }
             }
 
-            // Check bucket below target (skip when offset == 0 to avoid duplicate)
-            if offset > 0 {
-                let bucket_below = target_bucket.saturating_sub(offset);
-                // Only check if it's a different bucket (saturating_sub may equal target_bucket)
-                if bucket_below != bucket_above {
-                    for node in self.buckets[bucket_below].get_nodes() {
-                        let distance = node.id.0.distance(key);
-                        candidates.push((node.clone(), distance));
-                    }
+            // Check bucket below target (skip when offset == 0 to avoid duplicate);
+            // there is nothing below bucket 0
+            if offset > 0 && offset <= target_bucket {
+                let bucket_below = target_bucket - offset;
+                for node in self.buckets[bucket_below].get_nodes() {
+                    let distance = node.id.0.distance(key);
+                    candidates.push((node.clone(), distance));
                 }
             }
 
